@@ -644,6 +644,10 @@ func cmdCheck(prop, tier string) int {
 			w := startWorker(bin, dir, prop, map[string]string{"VERIF_SHRINK": raw, "VERIF_SHRINK_S": strconv.Itoa(shrinkS)}, "shrink")
 			var min replayFile
 			if err := readJSON(w.out, &min); err == nil && len(min.Decisions) > 0 {
+				// (the shrink worker does not know the tier: without it a replay of the
+				// shrunk file would use the quick size classes and read the recorded
+				// decisions differently)
+				min.Tier = rf.Tier
 				rf = min
 			}
 		}
